@@ -210,11 +210,65 @@ def load_corpus(names):
     return out
 
 
+def random_schedules(rng, n, flavour, max_steps=40):
+    """Seeded random environment schedules for the stepped driver, beyond the model's constants (workers 1..3,
+    limits 1..4, TCP/UDS listeners).  Every generated action is a legal environment behaviour whatever the state (the
+    engine ignores a Replace nobody asked for; finishing a connection that is not in progress yet only makes it finish
+    as soon as it is served), so TLC can judge the recorded run in predicate mode."""
+    out = []
+    for k in range(n):
+        w = rng.randint(1, 3)
+        limit = rng.randint(1, 4)
+        listeners = rng.choice([["tcp"], ["tcp", "uds"], ["uds"], ["uds", "tcp"]])
+        nl = len(listeners)
+        steps, nconn = [], 0
+
+        def env_action():
+            nonlocal nconn
+            r = rng.random()
+            if r < 0.35 or nconn == 0:
+                nconn += 1
+                return {"do": "Connect", "l": rng.randrange(nl)}
+            if r < 0.6:
+                return {"do": "WorkerPoll", "i": rng.randrange(w)}
+            if r < 0.85:
+                return {"do": "Finish", "c": rng.randrange(nconn)}
+            if flavour == "fault":
+                return rng.choice([{"do": "Kill", "i": rng.randrange(w)}, {"do": "Replace", "i": rng.randrange(w)},
+                                   {"do": "Finish", "c": rng.randrange(nconn)}])
+            if flavour == "cmd":
+                return rng.choice([{"do": "Cmd", "x": "Pause"}, {"do": "Cmd", "x": "Resume"}, {"do": "Cmd", "x": "Resume"},
+                                   {"do": "Inject", "l": rng.randrange(nl), "kind": rng.choice(["fatal", "conn", "enfile", "reset"])},
+                                   {"do": "Advance", "ms": rng.choice([100, 300, 510, 600])}])
+            return {"do": "WorkerPoll", "i": rng.randrange(w)}
+
+        for _ in range(rng.randint(8, max_steps)):
+            r = rng.random()
+            if r < 0.3:
+                anchored = []
+                for _ in range(rng.choice([0, 0, 1, 1, 2])):
+                    anchored.append({"at": rng.choice(["accepted", "sent", "inc"]), "nth": rng.randint(1, 2), "step": env_action()})
+                steps.append({"do": "Iter", "anchored": anchored})
+            elif r < 0.4:
+                steps.append({"do": "Settle"})
+            else:
+                steps.append(env_action())
+        if flavour == "cmd":
+            steps += [{"do": "Cmd", "x": "Resume"}, {"do": "Advance", "ms": 600}]
+        if flavour == "fault":
+            steps += [{"do": "Settle"}] + [{"do": "Replace", "i": i} for i in range(w)]
+        steps += [{"do": "Settle"}] + [{"do": "WorkerPoll", "i": i} for i in range(w)] + [{"do": "Settle"}]
+        out.append({"cfg": {"W": w, "Limit": limit, "listeners": listeners}, "steps": steps,
+                    "origin": "seeded random (%s)" % flavour})
+    return out
+
+
 PROP_OF_PRED = lambda pred: pred.split("_")[1] if pred and pred.startswith("T_") else None
 
 
 def run_check(ctx, *, design, edge_cfgs, negs, invariants, corpus, max_paths_quick=400, max_paths_thorough=6000,
-              thorough_design=(), live=(), neg_live=(), nontrivial=None, signature=None, rule=""):
+              thorough_design=(), live=(), neg_live=(), nontrivial=None, signature=None, rule="", random_flavour="core",
+              random_quick=150, random_thorough=4000):
     """design: configs checked exhaustively by TLC (must hold); edge_cfgs: subset whose state graph is turned into
     schedules; negs: {cfg: [expected predicates]} (each also yields a counterexample schedule); invariants: the
     T_* predicates of AcceptDispatchTrace that decide this property; corpus: corpus files to replay."""
@@ -251,6 +305,8 @@ def run_check(ctx, *, design, edge_cfgs, negs, invariants, corpus, max_paths_qui
         if s:
             scheds.append(s)
     scheds += load_corpus(corpus)
+    if random_flavour:
+        scheds += random_schedules(ctx.rng, random_quick if ctx.quick else random_thorough, random_flavour)
     accepted, bad, runs = replay_and_validate(ctx, scheds, invariants, ctx.prop.lower())
     ctx.cov["traces_validated_against_impl"] += accepted
     for (i, rec, pred) in bad:
